@@ -23,6 +23,8 @@ pub struct C02 {
 const ENUM_RUNS: u64 = 6 * 2 * 5;
 /// length sweeps: (backend, purpose) x length windows
 const SWEEP_RUNS: u64 = 12;
+/// large tokens whose payload segment decodes to exactly a power of two (one run per backend)
+const BIG_RUNS: u64 = 6;
 
 impl Scenario for C02 {
     fn property(&self) -> &'static str {
@@ -33,8 +35,8 @@ impl Scenario for C02 {
     }
     fn runs(&self, tier: Tier) -> u64 {
         match tier {
-            Tier::Quick => ENUM_RUNS + SWEEP_RUNS + 3_000,
-            Tier::Thorough => ENUM_RUNS * 8 + SWEEP_RUNS * 6 + 120_000,
+            Tier::Quick => ENUM_RUNS + SWEEP_RUNS + BIG_RUNS + 3_000,
+            Tier::Thorough => ENUM_RUNS * 8 + SWEEP_RUNS * 6 + BIG_RUNS + 120_000,
         }
     }
     fn rule(&self) -> String {
@@ -76,6 +78,8 @@ impl Scenario for C02 {
             self.enumerate(seed, run)
         } else if run < enum_runs + sweep_runs {
             self.sweep(seed, run, run - enum_runs, tier)
+        } else if run < enum_runs + sweep_runs + BIG_RUNS {
+            self.big(seed, run, run - enum_runs - sweep_runs, tier)
         } else {
             self.explore(seed, run, tier)
         }
@@ -108,6 +112,62 @@ impl C02 {
 
     fn validator(&self) -> VSpec {
         if self.probe { VSpec::Flag(true) } else { VSpec::None }
+    }
+
+    /// Large tokens: payload segments of exactly 2^16, 2^20, 2^24 (thorough: 2^25, 2^26) bytes and one off,
+    /// with surplus base64 text spliced in near the end of the segment, bytes appended, the last bytes
+    /// corrupted (decoders and MACs that treat sizes beyond some internal limit differently).
+    fn big(&self, seed: u64, run: u64, idx: u64, tier: Tier) -> Plan {
+        let bk = Bk::ALL[(idx % 6) as usize];
+        let mut b = Builder::new(self.name(), seed, run, vec![bk]);
+        let fk = b.family_keys(bk.family(), false).unwrap();
+        let now = Ns(b.now_ns);
+        let purpose = Purp::Local;
+        let overhead = nonce_len(bk.family(), purpose) + tag_len(bk.family(), purpose);
+        let mut sizes = vec![1usize << 16, 1 << 20, 1 << 24];
+        if tier == Tier::Thorough {
+            sizes.extend([1 << 25, 1 << 26]);
+        }
+        let v = self.validator();
+        for seg in sizes {
+            for delta in [0isize, 1, -1] {
+                let total = (seg as isize + delta) as usize;
+                let tok = b.tok_slot();
+                let claims = if self.probe { ClaimsSpec::Probe { bytes: Bytes::Gen { len: total - overhead, seed: b.ev_seed() } } } else { ClaimsSpec::Raw { bytes: Bytes::Gen { len: total - overhead, seed: b.ev_seed() } } };
+                let rng = b.healthy_rng();
+                b.push(Step::Seal { tok, node: 0, key: fk.local, purpose, claims, footer: FootSpec::Bytes { bytes: Bytes::hex(b"f") }, aad: Bytes::empty(), nonce: None, alias: false, rng, now_ns: now });
+                let mut deliver = |b: &mut Builder, faults: Vec<TokFault>| {
+                    b.push(Step::Deliver { tok, node: 0, key: fk.local, purpose: None, faults, pk: None, fk: None, validator: v.clone(), alias: false, now_ns: now, pair_with: None });
+                };
+                deliver(&mut b, vec![]);
+                if delta != 0 && seg > 1 << 20 {
+                    continue; // the neighbours of the largest sizes: round trip only
+                }
+                if seg > 1 << 20 {
+                    // the largest sizes: a handful of deliveries (each costs tens of milliseconds)
+                    for back in [0usize, 2, 3] {
+                        deliver(&mut b, vec![TokFault::TextInsertInPayload { back, chars: "AAAA".into() }]);
+                    }
+                    deliver(&mut b, vec![TokFault::TextInsertInPayload { back: 2, chars: "A".repeat(4000) }]);
+                    deliver(&mut b, vec![TokFault::ExtendBack { hex: "00".into() }]);
+                    deliver(&mut b, vec![TokFault::FlipPayload { byte: total - 1, bit: 0 }]);
+                    continue;
+                }
+                for back in [0usize, 1, 2, 3, 4, 8] {
+                    for chars in ["AAAA", "AAAAAAAA", "A", "AA", "AAA"] {
+                        deliver(&mut b, vec![TokFault::TextInsertInPayload { back, chars: chars.to_string() }]);
+                    }
+                }
+                deliver(&mut b, vec![TokFault::TextInsertInPayload { back: 2, chars: "A".repeat(4000) }]);
+                deliver(&mut b, vec![TokFault::ExtendBack { hex: "00".into() }]);
+                deliver(&mut b, vec![TokFault::ExtendBack { hex: "00".repeat(48) }]);
+                for byte in [total - 1, total - 2, total - 33, total / 2, overhead] {
+                    deliver(&mut b, vec![TokFault::FlipPayload { byte, bit: 0 }]);
+                }
+                deliver(&mut b, vec![TokFault::TruncBack { keep: total - 1 }]);
+            }
+        }
+        b.finish()
     }
 
     /// Length sweep: for every footer, assertion and message length of a window, the last, the middle
